@@ -195,7 +195,8 @@ def check_one(case, ctx, children=None):
         elif path == 'literal-string':
             text = ctx.call('tostring(python-literal)', q, context.tostring, 'python-literal')
             import ast
-            ctx.check(lib.listify(ast.literal_eval(text)) == want, 'literal/content', q,
+            parsed = ctx.call('literal/parse', q, ast.literal_eval, text)
+            ctx.check(lib.listify(parsed) == want, 'literal/content', q,
                       'python-literal text does not evaluate to the reference encoding')
             verify('fromstring(python-literal)', ctx.call('fromstring(python-literal)', q, concepts.Context.fromstring,
                                                            text, 'python-literal'), stored)
